@@ -103,6 +103,8 @@ type findingsFile struct {
 	Findings []finding `json:"findings"`
 }
 
+const errCrossBubble = "state shared across simulated runs"
+
 func die(code int, format string, a ...interface{}) {
 	fmt.Fprintf(os.Stderr, "simdrv: "+format+"\n", a...)
 	fmt.Printf("MACHINERY-FAILURE: "+format+"\n", a...)
@@ -272,6 +274,11 @@ func runWorker(bin string, cfg workerCfg, timeout time.Duration) (*summary, erro
 		tail := string(lb)
 		if len(tail) > 3000 {
 			tail = tail[len(tail)-3000:]
+		}
+		if strings.Contains(string(lb), "from outside bubble") {
+			// the Go runtime refuses, fatally, to let one synctest bubble touch a channel or
+			// goroutine that was created in another one
+			return nil, fmt.Errorf("worker %d: %s: the code under test keeps goroutines or channels alive from one call to the next (a process-wide worker pool or background goroutine started on first use?). Every simulated run lives in its own synctest bubble and the runtime does not let a bubble touch another bubble's channels, so this simulator cannot host such code; this is a limit of the machinery (DESIGN.md section 6.2, \"Goroutines that outlive a call\"), not a verdict on the property. Log kept in %s", cfg.Worker, errCrossBubble, keepDir)
 		}
 		return nil, fmt.Errorf("worker %d produced no summary (%v): %s", cfg.Worker, werr, tail)
 	}
@@ -512,7 +519,7 @@ func main() {
 			cfg := workerCfg{Property: prop, Mode: "explore", Tier: tier, VerifSeed: seed, Worker: w, NWorkers: nw, Runs: *runsFlag,
 				OutFile: filepath.Join(scratch, fmt.Sprintf("w%d.json", w)), ReplayDir: replayDir, Findings: openIDs, MaxProcs: procsCycle[w%3], MaxViol: 2, ShrinkS: 40}
 			sums[w], errs[w] = runWorker(bin, cfg, timeout)
-			if errs[w] != nil && !strings.Contains(errs[w].Error(), "watchdog") {
+			if errs[w] != nil && !strings.Contains(errs[w].Error(), "watchdog") && !strings.Contains(errs[w].Error(), errCrossBubble) {
 				// A worker that died without a summary is re-run once: its runs are a pure
 				// function of (seed, worker index), so a second death is not an accident.
 				fmt.Printf("simdrv: %v - restarting that worker once\n", errs[w])
